@@ -153,12 +153,18 @@ func validOptionalPort(port string) bool {
 	return true
 }
 
+// IsUnsafeMethod reports whether method must be treated as unsafe for the
+// purpose of cache invalidation (RFC 9111 §4.4): every method that is not
+// registered as safe, which includes unknown extension methods.
 func IsUnsafeMethod(method string) bool {
 	switch method {
-	case http.MethodPost, http.MethodPut, http.MethodDelete, http.MethodPatch:
-		return true
-	default:
+	case "", // net/http treats an empty method as GET
+		http.MethodGet, http.MethodHead, http.MethodOptions, http.MethodTrace,
+		// Other methods registered as safe in the IANA HTTP Method Registry.
+		"PROPFIND", "REPORT", "SEARCH", "QUERY":
 		return false
+	default:
+		return true
 	}
 }
 
